@@ -136,3 +136,25 @@ def replay_chunks(r):
 def witness_chunks(r):
     ch, n = _chunks(r)
     return {"match": [list(map(int, c)) for c in ch] == [list(map(int, c)) for c in r["expected"]["chunks"]], "got": [list(map(int, c)) for c in ch]}
+
+
+def replay_coo_sizes(r):
+    from vectorizers.base_cooccurrence_vectorizer import BaseCooccurrenceVectorizer
+    from vectorizers import MultiSetCooccurrenceVectorizer
+    inp, p = r["inputs"], r["params"]
+    cls = MultiSetCooccurrenceVectorizer if p["kind"] == "multiset" else BaseCooccurrenceVectorizer
+    est = cls.__new__(cls)
+    radii = [int(x) for x in inp["radii"]]
+    est.window_radii = radii
+    est._window_radii = np.array(radii, dtype=np.int64)
+    est._n_wide = len(radii)
+    est._full_kernel_args = [(None, False, int(o)) for o in inp["offsets"]]
+    est.coo_initial_bytes = int(inp["coo_initial_bytes"])
+    est.n_threads = int(inp["n_threads"])
+    doc = _Sized(int(inp["corpus_tokens"]))
+    try:
+        est._set_coo_sizes([[doc]] if p["kind"] == "multiset" else [doc])
+    except Exception as e:
+        return {"violation": True, "detail": "%s: %s" % (type(e).__name__, e)}
+    bad = est._coo_sizes.shape != (len(radii),) or bool(np.any(est._coo_sizes < 2))
+    return {"violation": bool(bad), "detail": "_coo_sizes = %s" % est._coo_sizes.tolist()}
